@@ -234,14 +234,19 @@ def worker_env(boundscheck=False, stamp=None):
 
 
 def prune_cache(keep_stamp):
+    """Remove numba caches of other source stamps not used for 6 hours."""
     base = CACHE / 'numba'
     if not base.is_dir():
         return
     import shutil
-    dirs = sorted(base.iterdir(), key=lambda p: p.stat().st_mtime)
-    old = [d for d in dirs if not d.name.startswith(keep_stamp)]
-    for d in old[:-2]:          # keep the two most recent other stamps
-        shutil.rmtree(d, ignore_errors=True)
+    now = time.time()
+    for d in base.iterdir():
+        try:
+            if (not d.name.startswith(keep_stamp) and
+                    now - d.stat().st_mtime > 6*3600):
+                shutil.rmtree(d, ignore_errors=True)
+        except OSError:
+            pass
 
 
 def warm(env, cdir, log):
